@@ -194,6 +194,19 @@ Next == \/ \E x \in Inst : Submit(x)
 
 Spec == Init /\ [][Next]_vars
 
+\* Start-up rebuild of the node's volatile lookup caches from its database (BlockChain.InitCache:
+\* the block cache of the last DefCacheSize blocks and the TxHeight duplicate cache of the last
+\* LO+HI blocks).  The abstract state is what the database holds, so the step changes nothing the
+\* model sees: Seen(t, best) must answer after it exactly as before.  Kept out of Next so that the
+\* configurations sized for Next keep their state counts; SpecR is Spec with the rebuild interleaved.
+Reinit ==
+  /\ nev < MaxEv /\ nev' = nev + 1
+  /\ Len(best) >= 1
+  /\ UNCHANGED <<prof, best, pool>>
+  /\ Emit([op |-> "Reinit", ret |-> "ok", chk |-> Chk'])
+NextR == Next \/ Reinit
+SpecR == Init /\ [][NextR]_vars
+
 -----------------------------------------------------------------------------
 \* The property, on the best chain of every reachable state.
 Pos == UNION {{<<i, j>> : j \in 1..Len(best[i].txs)} : i \in 1..Len(best)}
